@@ -54,11 +54,32 @@ def apply_edits(d, edits):
     return None
 
 
+_LAST_KNOWN = {}
+
+
 def run_check(prop, repo):
     r = subprocess.run([sys.executable, os.path.join(HERE, "check.py"), prop, "--repo", repo], capture_output=True, text=True)
     lines = r.stdout.splitlines()
     viol = [l for l in lines if ": rule " in l]
+    # the keys of the known findings this run reported (the bracketed `[KEY at file:line]` tail)
+    known = set()
+    for l in lines:
+        if l.startswith("KNOWN-FINDING:"):
+            m = re.search(r"\[([^\[\]]+?)(?: at [^\[\]]*)?\]\s*$", l)
+            known.add(m.group(1) if m else l[:120])
+    _LAST_KNOWN[(prop, repo)] = known
     return r.returncode, viol, r.stderr[-1500:]
+
+
+_BASE_KNOWN = {}
+
+
+def base_known(prop):
+    """known findings reported on the unchanged tree: a behaviour-preserving edit must keep them visible"""
+    if prop not in _BASE_KNOWN:
+        run_check(prop, factsmod.REPO)
+        _BASE_KNOWN[prop] = _LAST_KNOWN.get((prop, factsmod.REPO), set())
+    return _BASE_KNOWN[prop]
 
 
 def one(args):
@@ -95,6 +116,12 @@ def one(args):
                 res["results"][prop] = {"rc": rc, "reports": [v[:300] for v in viol[:3]]}
                 if rc != 0:
                     res["status"] = "FALSE-ALARM"
+                else:
+                    lost = sorted(base_known(prop) - _LAST_KNOWN.get((prop, d), set()))
+                    if lost and not res.get("may_lose_known"):
+                        # the defect is still in the code, the analysis no longer sees it
+                        res["results"][prop]["lost_known_findings"] = lost
+                        res["status"] = "LOST-FINDING"
     finally:
         shutil.rmtree(d, ignore_errors=True)
     return res
@@ -170,8 +197,10 @@ def main():
         line = "%-12s %-40s" % (r["status"], r["name"])
         if r["status"] in ("MISSED", "FALSE-ALARM", "invalid", "skipped"):
             line += " " + json.dumps(r.get("detail") or r["results"])[:400]
+        if r["status"] == "LOST-FINDING":
+            line += " " + json.dumps({p_: v_["lost_known_findings"] for p_, v_ in r["results"].items() if v_.get("lost_known_findings")})[:400]
         print(line)
-        if r["status"] in ("MISSED", "FALSE-ALARM", "invalid"):
+        if r["status"] in ("MISSED", "FALSE-ALARM", "invalid", "LOST-FINDING"):
             bad += 1
     print("self-test: %d edits, %d problems (%.0fs)" % (len(out), bad, dt))
     if a.json:
